@@ -117,17 +117,26 @@ def obs_events(chk):
     reps = 40 if chk.tier == 'quick' else 400
     # every (length, datatype) combination first (lengths on both sides of any size-dependent path), then random ones
     sizes = [3, 5, 8, 16, 33, 64, 127, 128, 129, 200]
-    grid = [(N, c) for N in sizes for c in (False, True)]
+    grid = [(N, c, None) for N in sizes for c in (False, True)]
+    # strongly predictable records (first reflection coefficient of modulus > 0.99): ramp, slow tone
+    grid += [(N, c, kd) for N in (64, 200) for c in (False, True) for kd in (4, 5)]
     for rep in range(reps + len(grid)):
         if rep < len(grid):
-            N, cplx = grid[rep]
+            N, cplx, kind_fixed = grid[rep]
         else:
             N = int(rng.choice(sizes))
             cplx = bool(rng.randint(2))
+            kind_fixed = None
         p = int(rng.randint(1, min(N - 1, 30) + 1))
-        kind = rng.randint(4)
+        kind = rng.randint(6) if kind_fixed is None else kind_fixed
         t = np.arange(N)
-        if kind == 0:
+        if kind == 4:
+            x = t + 1.0 + 0.01 * rng.randn(N)
+            p = min(p, 6)
+        elif kind == 5:
+            x = np.cos(0.02 * t + 0.1) + 1e-3 * rng.randn(N)
+            p = min(p, 6)
+        elif kind == 0:
             x = rng.randn(N)
         elif kind == 1:
             x = np.cos(0.6 * t) + 0.5 * np.cos(1.7 * t + 1) + 0.2 * rng.randn(N)
@@ -137,7 +146,7 @@ def obs_events(chk):
             x = rng.randint(-3, 4, N).astype(float)
             x[0] = 1.0
         if cplx:
-            x = x + 1j * rng.randn(N) * (0.5 if kind != 3 else 0) + (1j * rng.randint(-2, 3, N) if kind == 3 else 0)
+            x = x + 1j * rng.randn(N) * ((0.5 if kind < 3 else 0) if kind != 3 else 0) * (1 if kind < 4 else 0) + (1j * rng.randint(-2, 3, N) if kind == 3 else 0) + (1e-3j * rng.randn(N) if kind >= 4 else 0)
         ev = {'ev': 'yw', 'N': N, 'p': p, 'cplx': cplx, 'kind': int(kind)}
         ok, res = call_guard(aryule, x.copy(), p)
         ev['raised'] = not ok
